@@ -96,7 +96,14 @@ def parseTrace (obs : String) : Option (List Outcome × Option Nat) :=
       (parseOutcome t).bind fun o => if o == .stored || o == .dropped then none else go rest (o :: acc)
   go toks []
 
+/-- source-level observation of the retry loops' session identifier (see harness `callsite`) -/
+def isCallsite (line : String) : Bool :=
+  match splitWs line with
+  | ["callsite", w] => w == "signing" || w == "dkg"
+  | _ => false
+
 def model (line : String) : String :=
+  if isCallsite line then "session-per-attempt" else
   match parseCase line with
   | none => "bad-op"
   | some c =>
@@ -114,6 +121,9 @@ def model (line : String) : String :=
         else showList ((run id s c.ctx c.msgs).map showOutcome)
 
 def monitor (op obs : String) : String :=
+  if isCallsite op then
+    (if obs == "session-per-attempt" then "ok" else "FAIL attempts-share-one-session-id")
+  else
   match parseCase op with
   | none => if obs == "bad-op" then "ok" else "FAIL bad-op"
   | some c =>
